@@ -44,8 +44,6 @@ def run(chk):
     if chk.tier == "thorough" and chk.want("T05"):
         t05(chk, repo)
     chk.assume("float32 rounding, the numerical agreement with the tabulated densities and values within 0.3 A of a nucleus are not decided")
-    chk.assume("accepted named difference: interp_f_one uses ufill = 0.0 where the batch kernel uses yi[ni-1] (beyond the table's range the "
-               "tabulated density is <= 1.4e-8; not observable through this property's API)")
     chk.assume("the installed _density .so may lag the .pyx source (Cython is not available to rebuild)")
 
 
@@ -184,8 +182,9 @@ def r05_3(chk, dx):
     hb, hs = results["interp_f"]["high"], results["interp_f_one"]["high"]
     last = P.atom(("sub", P.name("yi"), (P.atom(("sub", P.atom(("attr", P.name("xi"), "shape")), (P.const(0),))) - 1,)))
     chk.ob("R05.3", DX, "interp_f", "above the table the batch kernel returns the last entry", hb == last, found=str(hb))
-    chk.ob("R05.3", DX, "interp_f_one", "above the table the single-point kernel returns the last entry or the accepted named value 0.0",
-           hs == last or hs == P.const(0), fingerprint="ufill", expected=f"{last} (or 0.0: named difference)", found=str(hs))
+    chk.ob("R05.3", DX, "interp_f_one", "above the table the single-point kernel returns what the batch kernel returns (the last entry): with 0.0 the "
+           "single-point density vanishes exactly beyond the table, the single-point weight becomes 0/0 and the root finder sees a sign change there",
+           hs == hb, fingerprint="ufill", expected=str(hb), found=str(hs))
 
 
 def sq_dist_form(term: P, pt, atom_pos):
